@@ -2,6 +2,8 @@
 //! orchestrating code lives here.
 use crate::common::{Ctx, Report};
 
+mod c02fm;
+
 pub fn dispatch(ctx: &Ctx, rep: &mut Report) {
     let fm = ctx.leg == "all" || ctx.leg == "fm";
     let ris = ctx.leg == "all" || ctx.leg == "ris";
@@ -12,6 +14,17 @@ pub fn dispatch(ctx: &Ctx, rep: &mut Report) {
             }
             if ris {
                 crate::onris::c01::run(ctx, rep);
+            }
+        },
+        "C02" => {
+            if ctx.leg == "all" || ctx.leg == "fm-coeff" {
+                c02fm::run(ctx, rep);
+            }
+            if ctx.leg == "all" || ctx.leg == "fm-verdict" {
+                crate::onfm::c02::run(ctx, rep);
+            }
+            if ctx.leg == "all" || ctx.leg == "ris-verdict" {
+                crate::onris::c02::run(ctx, rep);
             }
         },
         other => {
